@@ -9,7 +9,8 @@ CFG = dict(
                "back at most once; deadline = slot start + role base (slot/3 or slot/3*2) + cumulative per-round allowance, strictly monotone "
                "in the round, for the four slot-timed roles; Controller.OnTimeout model: a timeout for an unknown height, a lower round or a "
                "decided instance (also: undecodable data, stopped instance, duplicate delivery) changes nothing, broadcasts nothing, re-arms "
-               "nothing. Refuted and kept visible: the deadline formula for EVERY role (the default: branch of RoundTimeout - proposer - is "
+               "nothing; over ALL controller histories (start / decided for past, current, future heights / timeouts, any container capacity) a timeout "
+               "for any height other than the one most recently started changes nothing (invariant: every other stored instance is stopped or decided). Refuted and kept visible: the deadline formula for EVERY role (the default: branch of RoundTimeout - proposer - is "
                "arming time + one round's allowance), and the 'only latest' / 'once per round' clauses WITHOUT the increasing-rounds "
                "hypothesis (the real timer never stops earlier timers, it only compares round values at expiry). "
                "'Never early' is an assumption of the model (expire is enabled only at now >= deadline: Go timers do not fire early); the "
@@ -28,7 +29,7 @@ CFG = dict(
          "passed at arming, parent-context cancel with later armings, 18% at the points the quantifier excludes: same round twice, round re-armed after being "
          "superseded, new height on the shared timer), each executed at least twice on the real RoundTimer and re-run in isolation if executions differ or "
          "measured scheduling latency > 30 ms (scripts keep 60 ms between ops and expiry instants); 6n duration-arithmetic ops of the real RoundTimeout (production "
-         "constants and random ones, rounds up to 10^6); n controller cases (6-40 ops: start / decided / timeout current, lower, future, other height, decided, "
+         "constants and random ones, rounds up to 10^6); n controller cases (container capacity 1/2/3/4/8/1024, 8-50 ops, timeouts aimed at every stored instance: start / decided / timeout current, lower, future, other height, decided, "
          "stopped, duplicate, undecodable, chains up to the cutoff round). distinct = (role class, excluded point, op styles, #callbacks) resp. "
          "(op kind, staleness class, error) keys",
     trusted_base=["Go runtime: time.Timer never fires early; goroutine scheduling is an interleaving of the modelled steps (measured, not proved)",
